@@ -23,9 +23,9 @@ func (x *exch) coqObs() string {
 	s := &x.s
 	ref := x.expectedBody()
 	if s.NoResp {
-		return "true 0%Z [] 0%Z [] {| x_err := true; x_bytes := None; x_stream := Lit []; x_stream_end := None; x_again := Lit []; x_again_ok := true; x_out := Lit [] |}"
+		return "true 0%Z [] 0%Z [] {| x_err := true; x_bytes := None; x_stream := Lit []; x_stream_end := None; x_again := Lit []; x_again_ok := true; x_out := Lit [] |} []"
 	}
-	return fmt.Sprintf("false %s %s %s %s %s", hk.CoqZ(int64(s.Code)), coqHmap(s.Header), hk.CoqZ(s.CL), coqHmap(s.Trailer), x.coqAPI(ref))
+	return fmt.Sprintf("false %s %s %s %s %s %s", hk.CoqZ(int64(s.Code)), coqHmap(s.Header), hk.CoqZ(s.CL), coqHmap(s.Trailer), x.coqAPI(ref), coqInterims(s.Interims))
 }
 
 func (x *exch) hasBody() bool { return !(x.Method == "HEAD" || !bodyAllowed(x.A.Code)) }
